@@ -7,6 +7,14 @@ where one arm left it unbound; a chunk size below 1 in a world that reaches the 
 space the rules do not understand (a task index mapped through something else than the identity or recognised consecutive blocks), a read after
 the split that depends on undecided tests, a result iterator handed to an unknown consumer are reported as undecided (exit 2).
 
+C09-R5 compares trees, and its verdict is three-valued: a parallel and a serial path are compared only when their decisions can hold together
+(verifier/c09_facts.py: finite world evaluation per tested subject - `X in (a, b)` true with `X == a` false is `X == b`; a table lookup `D[X]`
+that went through makes X one of D's keys); when the quick exploration (helpers that only compute are left as terms in the parent) finds any
+difference, the comparison is repeated on an exploration that follows every helper on both sides (early returns merged into one value), the
+function whose result selects the mode excepted; there a difference is a VIOLATION only between trees that were followed completely - a merged
+conditional, a starred sequence or an unknown on one side only is expanded (both outcomes of the test under the facts of the two paths) or,
+failing that, reported as not decided (exit 2).
+
 All rules read one exact symbolic execution of `srs.srs` and `fdepsd.fdepsd` (verifier/c09_sim.py): every path through the parent up
 to the statement that joins the parallel and the serial arm, with the pool executed as fork + initializer + one symbolic task.  The rules
 speak about *objects and values* (which array a store lands on - through helper calls, views and `out=` -, which term is stored, which
@@ -20,7 +28,7 @@ from .e1_srcmodel import qualname_of
 from .c09_terms import World, Unsup, is_tag, is_const, subterms, contains, show, NONE, ZEROS, EMPTY
 from .c09_blocks import norm as bnorm, fragile, Facts, length_of, _lin_parts
 from .c09_chunks import expand_calls, search
-from .c09_facts import consistent, unfollowed, soft, diff_pairs, phi_conditions
+from .c09_facts import consistent, unfollowed, soft_terms, diff_pairs
 from .c09_run import (explore, join_index, live_in, compatible, equal_mod_alloc, diff_text, resolve, mode_atoms, extend_join, first_use, tail_test,
                       READ, MAYREAD)
 
@@ -726,12 +734,19 @@ def _judge(p, s, rp, rs, up, us, depth=0):
         return "equal", None
     pairs = []
     diff_pairs(vp, vs, pairs)
-    conds = [c for a, b in pairs for c in phi_conditions(a) + phi_conditions(b)]
-    if conds and depth < 6:
+    # what stands for the evaluator's representation on one side only of a differing pair (the same merged conditional / starred sequence at the
+    # same place on both sides is not a difference)
+    one_sided = [x for a, b in pairs for x in soft_terms(a) ^ soft_terms(b)]
+    conds = []
+    for x in one_sided:
+        if is_tag(x, "phi") and x[1] not in conds:
+            conds.append(x[1])
+    _BUDGET[0] -= 1
+    if conds and all(is_tag(x, "phi") for x in one_sided) and depth < 4 and _BUDGET[0] > 0:
         res = []
         for val in (True, False):
             up2, us2 = _assume(p.sim, up, conds[0], val), _assume(s.sim, us, conds[0], val)
-            if up2 is None or us2 is None or up2 == up and us2 == us:
+            if up2 is None or us2 is None or (up2 == up and us2 == us):
                 continue
             res.append(_judge(p, s, rp, rs, up2, us2, depth + 1))
         if res:
@@ -742,10 +757,13 @@ def _judge(p, s, rp, rs, up, us, depth=0):
                   set(getattr(p.sim.world, "keep_opaque", ())))
     if left:
         return "open", "the helper(s) " + ", ".join(left) + " were not followed where the trees differ or in the conditions of the paths"
-    if any(soft(a) or soft(b) for a, b in pairs):
+    if one_sided:
         return "open", "the trees differ in a merged conditional, a starred sequence or a value the evaluator does not know: " + \
             str(diff_text(vp, vs))[:600]
     return "definite", diff_text(vp, vs)
+
+
+_BUDGET = [0]
 
 
 def _compare_entry(world, q, rel, fn, K, live, leaves):
@@ -753,6 +771,7 @@ def _compare_entry(world, q, rel, fn, K, live, leaves):
     out = _Collected()
     ag = out
     undecided = out.undecided
+    _BUDGET[0] = 300          # expansions of merged conditionals in differing trees
     P = [lf for lf in leaves if lf.parallel]
     S = [lf for lf in leaves if not lf.parallel]
     if not P or not S:
@@ -768,6 +787,8 @@ def _compare_entry(world, q, rel, fn, K, live, leaves):
             undecided.add((f"{q}: the tasks {ws} own several indices each in a way the analysis does not recognise as consecutive blocks of one "
                            "edge sequence: what they compute together is not compared with the serial loop", fn))
             continue
+        if not consistent(p.assign):
+            continue          # the tests decided on this path contradict each other: no input takes it
         partners = [s for s in S if compatible(_drop(p.assign, mode), _drop(s.assign, mode))]
         if not partners:
             out.error(f"{q}: no serial path runs under the conditions of the parallel path with {ws}", fn,
@@ -981,6 +1002,8 @@ TRUSTED = ["CPython ast", "verifier/c09_sim.py exact symbolic execution (heap of
            "numpy.linspace returns its end points exactly",
            "verifier/c09_blocks.py index algebra for tasks that own a block of indices: integer + - * // are exact, a true division is rounded, "
            "int()/floor/ceil of a rounded value is never assumed to hit the intended integer",
+           "verifier/c09_facts.py: decisions on one subject (X == c, X in (...), X is None, bool(X), values merged over such tests) are read together by "
+           "evaluating them for every constant they mention, None and one other value; D[X] on a literal table raises KeyError for other keys",
            "CPython multiprocessing: Pool.map / starmap with chunksize <= 0 return without running a task, imap / imap_unordered / Executor.map raise "
            "ValueError for chunksize < 1 (verifier/c09_chunks.py evaluates the chunk size on a finite grid of worlds with Python integer arithmetic)"]
 EXPLANATION = ("Bernstein's conditions proved from the source for every schedule and worker count: each task touches written shared arrays only at "
